@@ -98,5 +98,15 @@ PROPS['C07'] = {
             'Not reached: sort/SVD/Lambert-W based proximals, product-space (group) proximals, SeparableSum',
     'technique': 'contract-based deductive verification: optimality over all z as a postcondition at the generic index (z3 QF_NRA), sub-differential calculus for derived functionals',
 }
+PROPS['C13'] = {
+    'level': 'proof',
+    'text': 'Deductive: the real finite_diff is executed by the interpreter on closure arrays of SYMBOLIC length n (free contents, stale out) for all 3 methods x '
+            '10 pad modes: forward modes equal stencil(ext_mode(f))/dx at the generic index for every n >= n_min; every mode is linear; for every mode the matrix entries '
+            'of the mode and of the mode named by _ADJ_METHOD/_ADJ_PADDING (read from source) satisfy M_adj(j,k) = -M(k,j) for ALL j,k,n (delta trick) - including the short-axis '
+            'corrections; error paths; 2-d arrays along both axes.',
+    'note': 'trusted: pyvc interpreter + closure-array kernel contracts (slice normalisation, operands captured before assignment), z3 LIA/LRA. The operator classes '
+            '(PartialDerivative/Gradient/Divergence/Laplacian: delegation to finite_diff, adjoint/derivative constructor arguments) are not under contract yet',
+    'technique': 'contract-based deductive verification: symbolic execution of the real slice code on closure arrays with symbolic extents, delta trick for transposes, z3',
+}
 for _k in PROPS:
     NOT_APPLICABLE.pop(_k, None)
